@@ -55,7 +55,9 @@ def shapes(x, y, w, level):
         for lo in range(hi + 1):
             if hi - lo + 1 < w:
                 out.append((f"x[{hi}:{lo}]", x[hi:lo]))
-    for n in (1, 2):
+    for n in (1, 2, w + 1, w + 2):  # incl. a zero prefix wider than the payload
+        if n > 2 and level != "full" and w > 2:
+            continue
         out += [(f"ZeroExt({n},x)", claripy.ZeroExt(n, x)), (f"SignExt({n},x)", claripy.SignExt(n, x)), (f"Concat(0#{n},x)", claripy.Concat(claripy.BVV(0, n), x))]
     out += [("-x", -x), ("~x", ~x), ("x*2", x * 2), ("x+x", x + x), ("x+y", x + y), ("x-y", x - y), ("x&y", x & y), ("x+y+1", x + y + 1), ("x[0:0]..y", claripy.Concat(x[0:0], y))]
     if level == "full":
